@@ -52,7 +52,15 @@ DOCUMENTED = {
     'instrument': ('instrumentKlasses', 'instrument.rst', {'snr': 'SNRInstrument'}),
 }
 PRIOR_NAMES = ['Uniform', 'LogUniform', 'Gaussian', 'LogGaussian']
-DOCDIR = '/repo/doc/source/user/taurex'
+def _docdir():
+    # documentation of the tree that is actually imported (normally /repo; a scratch worktree when
+    # a seeded change is evaluated with PYTHONPATH pointing at it)
+    import taurex
+    root = os.path.dirname(os.path.dirname(os.path.abspath(taurex.__file__)))
+    return os.path.join(root, 'doc', 'source', 'user', 'taurex')
+
+
+DOCDIR = _docdir()
 
 NUMFORM = st.sampled_from(['repr', 'exp', 'int', 'repr'])
 BOOLTRUE = ['true', 'yes', 'True', 'YES']
